@@ -171,6 +171,23 @@ def run(ctx: core.Ctx):
                 ctx.fail("mean_grp", dict(xx=xx, groups=groups, nodata=nd, dtype=dt), out.tolist(), dict(group0=float(want0), group1=float(want1)),
                          note="mean of the valid cells of the group (64-bit accumulation: exact sum, one rounding of the quotient)")
 
+    # ---- accessor level, histories: the nodata attribute is read at each call (a corrected attribute on the SAME object takes effect)
+    for nd_first, nd_then in ((0, -9999), (-9999, 0), (255, -9999)):
+        series = np.array([4, nd_then, nd_first, 7, 3, nd_then, nd_then, 1, 9, nd_first], dtype="int16")
+        cube_h = series.reshape(-1, 1, 1)
+        tt = np.arange(len(series)).astype("datetime64[D]")
+        obj = xr.DataArray(cube_h, dims=("time", "y", "x"), coords={"time": tt}, attrs={"nodata": nd_first})
+        grp_h = [i % 2 for i in range(len(series))]
+        _ = obj.hdc.rolling.sum(2), obj.hdc.algo.mean_grp(grp_h)          # first use with the first attribute
+        obj.attrs["nodata"] = nd_then
+        fresh = xr.DataArray(cube_h.copy(), dims=("time", "y", "x"), coords={"time": tt}, attrs={"nodata": nd_then})
+        ctx.case(("history", nd_first, nd_then), sample=dict(accessor="rolling.sum / mean_grp", history=f"call, attrs['nodata'] {nd_first} -> {nd_then}, call"))
+        ctx.count("accessor histories")
+        for nm, a, b in (("rolling.sum", obj.hdc.rolling.sum(2), fresh.hdc.rolling.sum(2)), ("mean_grp", obj.hdc.algo.mean_grp(grp_h), fresh.hdc.algo.mean_grp(grp_h))):
+            if not np.array_equal(np.asarray(a), np.asarray(b), equal_nan=True):
+                ctx.fail(nm + " accessor", dict(series=series.tolist(), history=f"call with nodata attribute {nd_first}, attribute changed to {nd_then}, call again"),
+                         np.asarray(a).ravel().tolist(), np.asarray(b).ravel().tolist(), note="the result depends on the array and its current nodata, not on earlier calls")
+
     # ---- accessor level (R): eager and dask, window dropped positions
     import dask.array as da_
     for _ in range(ctx.budget(6, 40)):
